@@ -125,6 +125,11 @@ def tasks(tier):
   # "stored preconditioners stay finite ... whatever happens to statistics (singular ...)": an accepted root must be
   # DEFINED.  The eigh routine's reported error does not see the root, so its definedness is an obligation of its own
   # (shared with C01): the base of every inverse p-th power is > 0 whatever eigenvalues eigh returns.
+  # on a step that does not recompute roots the stored preconditioner is the old one for EVERY threshold: the
+  # placeholder error handed to the gate must be rejected by it (real-valued thresholds; shared with C04)
+  from contracts import c04
+  ts.append(Task("non-refresh steps keep the old preconditioner for any threshold[interval symbolic]", c04.mk_precond_cadence("sym")))
+  ts.append(Task("non-refresh steps keep the old preconditioner for any threshold[scheduled]", c04.mk_precond_cadence("scheduled-from-n")))
   from contracts import c01
   for rel in (True, False):
     for pad in (True, False):
